@@ -315,7 +315,9 @@ fn run_job(st: &Setup, j: &Job) -> Outcome {
     let pid = child.id();
     let mut last_size = 0u64;
     let mut last_progress = Instant::now();
-    let mut half_snapshot: Option<u64> = None; // CPU of the process tree half-way through a silent window
+    let mut last_sample = Instant::now();
+    let mut last_tree_cpu = 0u64;
+    let mut seen_pids: std::collections::HashSet<u32> = std::collections::HashSet::new();
     let mut shim_exit_seen: Option<u64> = None; // worker CPU (ms) when the shim was first seen to have terminated itself
     let mut hang: Option<String> = None;
     loop {
@@ -328,7 +330,6 @@ fn run_job(st: &Setup, j: &Job) -> Outcome {
         if size != last_size {
             last_size = size;
             last_progress = Instant::now();
-            half_snapshot = None;
             if shim_exit_seen.is_none() && std::fs::read_to_string(&log_path).map(|t| t.lines().any(|l| l.starts_with("X "))).unwrap_or(false) {
                 shim_exit_seen = Some(proc_cpu_ms(pid));
             }
@@ -340,19 +341,23 @@ fn run_job(st: &Setup, j: &Job) -> Outcome {
                 hang = Some(format!("spinning: {} ms of CPU after the solver process had exited", st.spin_ms));
             }
         }
-        // (b) nobody makes progress: no new reply, and neither worker nor shim nor solver used CPU
-        // during the second half of the silent window
-        if hang.is_none() && half_snapshot.is_none() && last_progress.elapsed() > Duration::from_millis(st.stall_ms / 2) {
-            half_snapshot = Some(tree_cpu_ms(pid));
+        // (b) nobody makes progress: no new reply, and every process of the tree (worker, shim, solver)
+        // has been asleep - not running, not runnable, not in the kernel - at every sample of the window.
+        // (A starved but runnable process shows up as R: heavy load on the machine is not a hang.)
+        if hang.is_none() && last_sample.elapsed() > Duration::from_millis(40) {
+            last_sample = Instant::now();
+            let (busy, cpu) = tree_activity(pid, &mut seen_pids);
+            if busy || cpu != last_tree_cpu {
+                last_progress = Instant::now();
+            }
+            last_tree_cpu = cpu;
         }
         if hang.is_none() && last_progress.elapsed() > Duration::from_millis(st.stall_ms) {
-            let used = tree_cpu_ms(pid).saturating_sub(half_snapshot.unwrap_or(0));
-            if used < 60 {
-                hang = Some(format!("blocked: no reply and no CPU use for {} ms", st.stall_ms / 2));
-            } else {
-                // somebody is computing: restart the window
+            if emitter_pending(&seen_pids) {
+                // the shim's emitter (re-parented, hence outside the tree) has not delivered yet
                 last_progress = Instant::now();
-                half_snapshot = None;
+            } else {
+                hang = Some(format!("blocked: no reply, every process asleep and no CPU used for {} ms", st.stall_ms));
             }
         }
         if hang.is_none() && t0.elapsed() > Duration::from_millis(st.max_ms) {
@@ -509,7 +514,7 @@ fn fault_kinds(tier: &str) -> (Vec<String>, Vec<String>) {
     let mut sec: Vec<String> = vec![];
     for s in [
         "truncopen:1", "truncopennl", "trunchalf", "exit1quiet", "garbage:1", "garbage:2", "garbage:3", "garbage:4", "garbage:5", "garbage:6", "garbage:7",
-        "garbage:8", "garbage:9", "pad", "replyexit0", "replyexit1", "errorexit:20", "unknowntrunc",
+        "garbage:8", "garbage:9", "garbage:10", "garbage:11", "garbage:12", "pad", "replyexit0", "replyexit1", "errorexit:20", "unknowntrunc",
         // message with quotes inside; z3's real duplicate-definition message; a 2-byte character that the slice cuts in half
         "errortext:named \"x\" already defined", "errortext:line 9 column 54: named expression already defined", "errortext:a\u{e9}bcdef",
         // a message containing an opening parenthesis: count_parens does not know about string literals
@@ -627,7 +632,7 @@ fn parent(args: &Args) {
         tmp: tmp.to_string_lossy().into_owned(),
         solver: solver.clone(),
         real,
-        stall_ms: args.get_u64("stall-ms", 4000),
+        stall_ms: args.get_u64("stall-ms", 3000),
         spin_ms: args.get_u64("spin-ms", 500),
         max_ms: args.get_u64("max-ms", 120000),
     };
@@ -872,41 +877,73 @@ fn proc_cpu_ms(pid: u32) -> u64 {
     (ut + stt) * 10
 }
 
-fn proc_ppid(pid: u32) -> Option<u32> {
+fn proc_state(pid: u32) -> Option<char> {
     let txt = std::fs::read_to_string(format!("/proc/{pid}/stat")).ok()?;
     let rest = &txt[txt.rfind(')')? + 1..];
-    rest.split_whitespace().nth(1)?.parse().ok()
+    rest.split_whitespace().next()?.chars().next()
 }
 
-/// CPU time of a process and all its descendants (worker + shim + solver)
-fn tree_cpu_ms(root: u32) -> u64 {
-    let mut pids: Vec<u32> = vec![];
+/// the process and all its descendants (through /proc/<pid>/task/<tid>/children)
+fn tree_pids(root: u32) -> Vec<u32> {
+    let mut out = vec![root];
+    let mut i = 0;
+    while i < out.len() && out.len() < 64 {
+        let p = out[i];
+        if let Ok(rd) = std::fs::read_dir(format!("/proc/{p}/task")) {
+            for t in rd.flatten() {
+                if let Ok(txt) = std::fs::read_to_string(t.path().join("children")) {
+                    for c in txt.split_whitespace() {
+                        if let Ok(c) = c.parse::<u32>() {
+                            if !out.contains(&c) {
+                                out.push(c);
+                            }
+                        }
+                    }
+                }
+            }
+        }
+        i += 1;
+    }
+    out
+}
+
+/// (some process of the tree is running / runnable / in uninterruptible sleep, total CPU ms of the tree)
+fn tree_activity(root: u32, seen: &mut std::collections::HashSet<u32>) -> (bool, u64) {
+    let mut busy = false;
+    let mut cpu = 0;
+    for p in tree_pids(root) {
+        seen.insert(p);
+        match proc_state(p) {
+            Some('R') | Some('D') => busy = true,
+            _ => {}
+        }
+        cpu += proc_cpu_ms(p);
+    }
+    (busy, cpu)
+}
+
+/// is there a live `solver-shim --shim-emit <hex> <delay> <shim pid>` whose shim belonged to this run?
+fn emitter_pending(seen: &std::collections::HashSet<u32>) -> bool {
     if let Ok(rd) = std::fs::read_dir("/proc") {
         for e in rd.flatten() {
-            if let Ok(p) = e.file_name().to_string_lossy().parse::<u32>() {
-                pids.push(p);
+            let name = e.file_name();
+            let name = name.to_string_lossy();
+            if !name.chars().all(|c| c.is_ascii_digit()) {
+                continue;
+            }
+            if let Ok(cmd) = std::fs::read(e.path().join("cmdline")) {
+                let args: Vec<String> = cmd.split(|b| *b == 0).map(|a| String::from_utf8_lossy(a).into_owned()).collect();
+                if args.len() >= 5 && args[1] == "--shim-emit" {
+                    if let Ok(p) = args[4].parse::<u32>() {
+                        if seen.contains(&p) {
+                            return true;
+                        }
+                    }
+                }
             }
         }
     }
-    let parents: std::collections::HashMap<u32, u32> = pids.iter().filter_map(|p| proc_ppid(*p).map(|pp| (*p, pp))).collect();
-    let mut total = 0;
-    for p in pids.iter() {
-        let mut cur = *p;
-        let mut depth = 0;
-        let mut inside = cur == root;
-        while !inside && depth < 6 {
-            match parents.get(&cur) {
-                Some(pp) if *pp == root => inside = true,
-                Some(pp) if *pp > 1 => cur = *pp,
-                _ => break,
-            }
-            depth += 1;
-        }
-        if inside {
-            total += proc_cpu_ms(*p);
-        }
-    }
-    total
+    false
 }
 
 fn bucket(n: usize) -> String {
